@@ -131,6 +131,14 @@ def _text(f):
 
 # ---------------------------------------------------------------- process level: exit status and last words
 
+def _default_signals():
+    # a check started under nohup (or from a shell that ignores them) would hand the ignored dispositions
+    # down to the wrapper and to the command it wraps: `kill -HUP $$` would then do nothing
+    import signal
+    for s in (signal.SIGHUP, signal.SIGINT, signal.SIGQUIT, signal.SIGTERM, signal.SIGPIPE):
+        signal.signal(s, signal.SIG_DFL)
+
+
 def _run_wrapped(binary, script, mode, timeout=30):
     """Run `trzsz sh -c script`.  mode: pipe (stdin = open pipe, stdout = pipe), pty (both on a
     pty slave), slow (stdout = pipe that is read only after the wrapper has exited or 0.3 s)."""
@@ -138,11 +146,12 @@ def _run_wrapped(binary, script, mode, timeout=30):
     out = b""
     if mode == "pty":
         m, s = pty.openpty()
-        p = subprocess.Popen([binary, "sh", "-c", script], stdin=s, stdout=s, stderr=s, close_fds=True)
+        p = subprocess.Popen([binary, "sh", "-c", script], stdin=s, stdout=s, stderr=s, close_fds=True, preexec_fn=_default_signals)
         os.close(s)
         fd = m
     else:
-        p = subprocess.Popen([binary, "sh", "-c", script], stdin=subprocess.PIPE, stdout=subprocess.PIPE, stderr=subprocess.DEVNULL)
+        p = subprocess.Popen([binary, "sh", "-c", script], stdin=subprocess.PIPE, stdout=subprocess.PIPE, stderr=subprocess.DEVNULL,
+                             preexec_fn=_default_signals)
         fd = p.stdout.fileno()
     if mode == "slow":
         while p.poll() is None and time.time() - t0 < 0.3:
